@@ -1,16 +1,182 @@
-//! Suite C15 (stub — replaced when the property's harness is built).
-#![allow(dead_code, unused_imports)]
+//! C15: the LDRO decision of lora-modulation and of every radio driver (real code), and the bit the
+//! driver actually programs (observed on a recording fake SPI bus).
+#![allow(dead_code)]
+use crate::c16::{BWS, CRS, SFS};
 use crate::util::*;
+use lora_modulation::{Bandwidth, BaseBandModulationParams, CodingRate, SpreadingFactor};
+use lora_phy::mod_traits::RadioKind;
 
-pub fn eval(_op: &str) -> String {
-    "bad-op".into()
+#[path = "phyfake_b.rs"]
+pub mod fake;
+use fake::*;
+
+pub const CHIPS: [&str; 6] = ["sx1261", "sx1262", "stm32wl", "sx1272", "sx1276", "lr1110"];
+
+pub fn sx126x<C: lora_phy::sx126x::Sx126xVariant>(bus: &std::rc::Rc<std::cell::RefCell<Bus>>, chip: C) -> lora_phy::sx126x::Sx126x<FakeSpi, FakeIv, C> {
+    lora_phy::sx126x::Sx126x::new(
+        FakeSpi(bus.clone()),
+        FakeIv,
+        lora_phy::sx126x::Config { chip, tcxo_ctrl: None, use_dcdc: false, rx_boost: false },
+    )
+}
+
+pub fn sx1276(bus: &std::rc::Rc<std::cell::RefCell<Bus>>, tx_boost: bool) -> lora_phy::sx127x::Sx127x<FakeSpi, FakeIv, lora_phy::sx127x::Sx1276> {
+    lora_phy::sx127x::Sx127x::new(
+        FakeSpi(bus.clone()),
+        FakeIv,
+        lora_phy::sx127x::Config { chip: lora_phy::sx127x::Sx1276, tcxo_used: false, tx_boost, rx_boost: false },
+    )
+}
+
+pub fn sx1272(bus: &std::rc::Rc<std::cell::RefCell<Bus>>, tx_boost: bool) -> lora_phy::sx127x::Sx127x<FakeSpi, FakeIv, lora_phy::sx127x::Sx1272> {
+    lora_phy::sx127x::Sx127x::new(
+        FakeSpi(bus.clone()),
+        FakeIv,
+        lora_phy::sx127x::Config { chip: lora_phy::sx127x::Sx1272, tcxo_used: false, tx_boost, rx_boost: false },
+    )
+}
+
+pub fn lr1110(bus: &std::rc::Rc<std::cell::RefCell<Bus>>) -> lora_phy::lr1110::Lr1110<FakeSpi, FakeIv> {
+    lora_phy::lr1110::Lr1110::new(
+        FakeSpi(bus.clone()),
+        FakeIv,
+        lora_phy::lr1110::Config {
+            pa_selection: lora_phy::lr1110::radio_kind_params::PaSelection::Lp,
+            dio_as_rf_switch: None,
+            tcxo_ctrl: None,
+            use_dcdc: false,
+            rx_boost: false,
+        },
+    )
+}
+
+/// create_modulation_params + set_modulation_params on the real driver; answer `field,bit` / `ERR`.
+fn drive<RK: RadioKind>(rk: &mut RK, sf: SpreadingFactor, bw: Bandwidth, cr: CodingRate, rf: u32) -> Result<u8, ()> {
+    let mp = rk.create_modulation_params(sf, bw, cr, rf).map_err(|_| ())?;
+    let f = mp.low_data_rate_optimize;
+    block_on(rk.set_modulation_params(&mp)).map_err(|_| ())?;
+    Ok(f)
+}
+
+fn ldro_case(chip: &str, sf: SpreadingFactor, bw: Bandwidth, cr: CodingRate, rf: u32, prior: u8) -> String {
+    let chip = chip.to_string();
+    let r = guarded(move || -> String {
+        let (proto, sel) = match chip.as_str() {
+            "sx1261" | "sx1262" | "stm32wl" => (Proto::Sx126x, 0),
+            "sx1272" | "sx1276" => (Proto::Sx127x, 1),
+            "lr1110" => (Proto::Lr11xx, 2),
+            _ => return "bad-op".into(),
+        };
+        let _ = sel;
+        let bus = Bus::new(proto, prior);
+        let res = match chip.as_str() {
+            "sx1261" => drive(&mut sx126x(&bus, lora_phy::sx126x::Sx1261), sf, bw, cr, rf),
+            "sx1262" => drive(&mut sx126x(&bus, lora_phy::sx126x::Sx1262), sf, bw, cr, rf),
+            "stm32wl" => drive(&mut sx126x(&bus, lora_phy::sx126x::Stm32wl { use_high_power_pa: true }), sf, bw, cr, rf),
+            "sx1272" => drive(&mut sx1272(&bus, false), sf, bw, cr, rf),
+            "sx1276" => drive(&mut sx1276(&bus, false), sf, bw, cr, rf),
+            _ => drive(&mut lr1110(&bus), sf, bw, cr, rf),
+        };
+        let Ok(f) = res else { return "ERR".into() };
+        let b = bus.borrow();
+        // where the chip finds the flag (datasheet positions)
+        let bit: Option<u32> = match chip.as_str() {
+            "sx1261" | "sx1262" | "stm32wl" => b.last_cmd(0x8B).and_then(|c| c.get(4).copied()).map(|v| v as u32),
+            "sx1276" => b.written(0x26).map(|v| ((v >> 3) & 1) as u32),
+            "sx1272" => b.written(0x1D).map(|v| (v & 1) as u32),
+            _ => b.log.iter().rev().find(|t| t.len() >= 6 && t[0] == 0x02 && t[1] == 0x0F).map(|t| t[5] as u32),
+        };
+        match bit {
+            Some(bit) => format!("{},{}", f, bit),
+            None => format!("{},not-programmed", f),
+        }
+    });
+    r.unwrap_or_else(|| "PANIC".into())
+}
+
+fn sf_of(n: &str) -> Option<SpreadingFactor> {
+    SFS.iter().copied().find(|s| s.factor().to_string() == n)
+}
+fn bw_of(n: &str) -> Option<Bandwidth> {
+    BWS.iter().copied().find(|s| s.hz().to_string() == n)
+}
+fn cr_of(n: &str) -> Option<CodingRate> {
+    CRS.iter().copied().find(|s| s.denom().to_string() == n)
+}
+
+pub fn eval(op: &str) -> String {
+    let w: Vec<&str> = op.split_whitespace().collect();
+    match w.as_slice() {
+        ["C15", "mod", sf, bw] => {
+            let (Some(sf), Some(bw)) = (sf_of(sf), bw_of(bw)) else { return "bad-op".into() };
+            match guarded(move || BaseBandModulationParams::new(sf, bw, CodingRate::_4_5).ldro) {
+                Some(l) => (l as u8).to_string(),
+                None => "PANIC".into(),
+            }
+        }
+        ["C15", "ldro", chip, sf, bw, cr, rf, prior] => {
+            let (Some(sf), Some(bw), Some(cr), Ok(rf), Ok(prior)) = (sf_of(sf), bw_of(bw), cr_of(cr), rf.parse::<u32>(), prior.parse::<u8>()) else {
+                return "bad-op".into();
+            };
+            if !CHIPS.contains(chip) {
+                return "bad-op".into();
+            }
+            ldro_case(chip, sf, bw, cr, rf, prior)
+        }
+        _ => "bad-op".into(),
+    }
 }
 
 pub fn expand(_op: &str) -> Vec<String> {
     vec![]
 }
 
-pub fn run(_tier: &str, _seed: u64, dir: &str) {
-    let sink = Sink::new(dir);
-    sink.finish(dir, "stub", false, serde_json::json!({}));
+pub fn run(tier: &str, seed: u64, dir: &str) {
+    let mut rng = Rng::new(seed);
+    let mut sink = Sink::new(dir);
+    for sf in SFS {
+        for bw in BWS {
+            let op = format!("C15 mod {} {}", sf.factor(), bw.hz());
+            sink.case(&op, &eval(&op), "modulation", true);
+        }
+    }
+    // every chip × every (sf,bw) × RF frequencies on both sides of the 400 MHz band rule ×
+    // prior register contents 0x00 / 0xff (read-modify-write) — the whole finite domain; the coding
+    // rate (which shares a register with the flag on SX1272) is swept on the boundary frequencies.
+    let rfs: [u32; 7] = [137_000_000, 169_400_000, 399_999_999, 400_000_000, 433_050_000, 868_100_000, 915_000_000];
+    for chip in CHIPS {
+        for sf in SFS {
+            for bw in BWS {
+                for (i, rf) in rfs.iter().enumerate() {
+                    for prior in [0u8, 0xff] {
+                        let crs: &[CodingRate] = if i == 2 || i == 3 || i == 5 { &CRS } else { &CRS[..1] };
+                        for cr in crs {
+                            let op = format!("C15 ldro {} {} {} {} {} {}", chip, sf.factor(), bw.hz(), cr.denom(), rf, prior);
+                            let a = eval(&op);
+                            let class = if a == "ERR" { format!("{}-unsupported", chip) } else { format!("{}-ldro{}", chip, &a[..1]) };
+                            sink.case(&op, &a, &class, true);
+                        }
+                    }
+                }
+            }
+        }
+    }
+    // seeded: arbitrary u32 frequencies and prior bytes
+    let n = if tier == "thorough" { 200_000 } else { 20_000 };
+    for _ in 0..n {
+        let chip = *rng.pick(&CHIPS);
+        let sf = *rng.pick(&SFS);
+        let bw = *rng.pick(&BWS);
+        let cr = *rng.pick(&CRS);
+        let rf = if rng.chance(1, 3) { (400_000_000i64 + rng.range(-3, 3)) as u32 } else { rng.next() as u32 };
+        let prior = rng.next() as u8;
+        let op = format!("C15 ldro {} {} {} {} {} {}", chip, sf.factor(), bw.hz(), cr.denom(), rf, prior);
+        sink.case(&op, &eval(&op), "random-rf-prior", true);
+    }
+    sink.finish(
+        dir,
+        "LDRO of lora-modulation `new` for all 80 (sf,bw); for each of 6 chip variants all 80 (sf,bw) x 7 RF frequencies around the 400 MHz band rule x prior register content 0x00/0xff (x 4 coding rates on three of the frequencies): create_modulation_params + set_modulation_params on the real driver over a recording fake SPI, answer = low_data_rate_optimize field and the flag decoded from the programmed byte at its datasheet position; plus seeded arbitrary u32 frequencies / prior bytes. Distinct = distinct op lines; all non-trivial (a concrete decision compared with model and spec). The (chip,sf,bw,band) domain is finite and enumerated completely.",
+        true,
+        serde_json::json!({}),
+    );
 }
